@@ -148,10 +148,11 @@ def run_unit(unit, fs, seed=0, rlimit=None, keep=True, tag=""):
     if res["compile_errors"] or j is None or res.get("vir_error"):
         res["status"] = "undecided"
         if j is None and not res["compile_errors"]:
-            res["compile_errors"].append(dict(message="verus produced no JSON result", rendered=p.stderr[-3000:], labels=[], fn=None))
+            m = re.search(r"(Internal Verus Error[^\n]*|panicked at[^\n]*)", p.stderr)
+            res["compile_errors"].append(dict(message="verus produced no result" + (": " + m.group(1)[:300] if m else ""), rendered=p.stderr[-3000:], labels=[], fn=None))
     elif res["undecided"]:
         res["status"] = "undecided"
-    elif not res["canary_failed"]:
+    elif not res["canary_failed"] and j is not None:
         res["status"] = "undecided"
         res["compile_errors"].append(dict(message="canary `ensures false` was accepted: inconsistent assumptions", labels=[], fn=None, rendered=""))
     elif res["failures"]:
